@@ -228,6 +228,11 @@ _BINOPS = {
     ast.BitAnd: operator.and_, ast.BitXor: operator.xor, ast.LShift: operator.lshift, ast.RShift: operator.rshift,
     ast.MatMult: operator.matmul,
 }
+_BINOP_DUNDERS = {
+    ast.Add: ('__add__', '__radd__'), ast.Sub: ('__sub__', '__rsub__'), ast.Mult: ('__mul__', '__rmul__'),
+    ast.Div: ('__truediv__', '__rtruediv__'), ast.FloorDiv: ('__floordiv__', '__rfloordiv__'),
+    ast.Mod: ('__mod__', '__rmod__'),
+}
 _CMPOPS = {
     ast.Eq: operator.eq, ast.NotEq: operator.ne, ast.Lt: operator.lt, ast.LtE: operator.le,
     ast.Gt: operator.gt, ast.GtE: operator.ge,
@@ -697,6 +702,12 @@ class Interp:
         sa, sb = isinstance(a, Sym), isinstance(b, Sym)
         if not sa and not sb:
             if isinstance(a, Opaque) or isinstance(b, Opaque):
+                # an interface may describe the operator as a method (e.g. pathlib's `/` as __truediv__)
+                dunder = _BINOP_DUNDERS.get(opcls)
+                if dunder is not None and isinstance(a, Opaque) and self.reg.opaque_has(self, a, dunder[0]):
+                    return self.reg.call_opaque(self, a, dunder[0], [b], {})
+                if dunder is not None and isinstance(b, Opaque) and self.reg.opaque_has(self, b, dunder[1]):
+                    return self.reg.call_opaque(self, b, dunder[1], [a], {})
                 raise Unsupported('binary operator on opaque object')
             if opcls is ast.Mod and isinstance(a, str) and contains_sym(b):
                 return SStr(self.st.fresh_str('fmt'))
